@@ -371,6 +371,12 @@ func recognise(w *world, pa, pb *parsedOp, f failure) string {
 				}
 			}
 		}
+	case "call-dropped":
+		for _, p := range pick(f.side) {
+			if w.resolverUnder(p, func(a ancestry) bool { return a.abstract }) {
+				return findResolverInUnion
+			}
+		}
 	case "shape":
 		// symptom: objects lack response keys, nothing else is wrong, and every lacking key is
 		// a __typename key of a site at that position
@@ -403,36 +409,33 @@ func recognise(w *world, pa, pb *parsedOp, f failure) string {
 		}
 		m := f.ms[0]
 		u := stripIndices(m.U)
-		type sideT struct {
-			name string
-			p    *parsedOp
-			out  *outcome
-			vals []string
-		}
-		sides := []sideT{{"q", pa, f.a, m.A}}
-		if pb != nil {
-			sides = append(sides, sideT{"q'", pb, f.b, m.B})
-		}
-		for _, s := range sides {
-			if s.out == nil {
-				continue
+		outOf := func(side string) (*parsedOp, *outcome) {
+			if side == "q" {
+				return pa, f.a
 			}
-			for _, site := range w.aliasDropSites(s.p) {
-				// (a) nullable field: the lost key is rendered as null next to the value
-				if m.Within == s.name && u == site.path+"/"+site.name && len(s.vals) == 2 && (s.vals[0] == "null" || s.vals[1] == "null") {
-					return findAliasDrop
-				}
-				// (b) non-null field: the lost key nulls the resolver result (or an ancestor)
-				if m.Within == "" && len(s.vals) == 1 && s.vals[0] == "null" && (site.path == u || strings.HasPrefix(site.path, u+"/") || u == "") &&
-					errorMentionsKey(s.out.resp, site.alias) {
-					return findAliasDrop
-				}
-				// (b') the same inside one response: the field is selected under two response
-				// keys and only the occurrence with the lost key is nulled
-				if m.Within == s.name && len(s.vals) == 2 && (s.vals[0] == "null" || s.vals[1] == "null") && (site.path == u || strings.HasPrefix(site.path, u+"/")) &&
-					errorMentionsKey(s.out.resp, site.alias) {
-					return findAliasDrop
-				}
+			return pb, f.b
+		}
+		// the null observation and the operation it belongs to
+		null, side := m.X, m.SideX
+		if m.Y.val == "null" {
+			null, side = m.Y, m.SideY
+		}
+		if null.val != "null" || m.X.val == m.Y.val {
+			return ""
+		}
+		p, out := outOf(side)
+		if p == nil || out == nil {
+			return ""
+		}
+		for _, site := range w.aliasDropSites(p) {
+			// (a) nullable field: the lost key itself is rendered as null while the field has a
+			// value under its other response key(s)
+			if u == site.path+"/"+site.name && strings.HasSuffix(null.path, "."+site.alias) {
+				return findAliasDrop
+			}
+			// (b) non-null field: the lost key nulls the resolver result or an ancestor of it
+			if (site.path == u || strings.HasPrefix(site.path, u+"/") || u == "") && errorMentionsKey(out.resp, site.alias) {
+				return findAliasDrop
 			}
 		}
 	}
@@ -472,4 +475,66 @@ func explainedAllObjects(diffs []keyDiff, sites []typenameSite) bool {
 	return len(byU) > 0
 }
 
-func probes() pbt.Probes { return pbt.Probes{} }
+// ---- directed probes --------------------------------------------------------------------------
+
+// probeOps runs fixed (q, q') pairs through the full check; the finding reproduces while a
+// pair fails and the recogniser attributes the failure to it.
+func probeOps(finding string, cases ...opCase) pbt.ProbeDef {
+	return pbt.ProbeDef{Input: cases, Fn: func() string {
+		var got []string
+		for _, c := range cases {
+			v := checkOpCase(c, &pbt.Rec{})
+			switch {
+			case v.Msg == "":
+			case v.Finding == finding:
+				got = append(got, firstLine(v.Msg)+" [q' = "+c.Q2+"]")
+			default:
+				got = append(got, "DIFFERENT FAILURE (recognised as \""+v.Finding+"\"): "+firstLine(v.Msg)+" [q' = "+c.Q2+"]")
+			}
+		}
+		return strings.Join(got, " || ")
+	}}
+}
+
+func probeSolo(finding string, cases ...unitCase) pbt.ProbeDef {
+	return pbt.ProbeDef{Input: cases, Fn: func() string {
+		var got []string
+		for _, c := range cases {
+			v := checkUnitCase(c, &pbt.Rec{})
+			switch {
+			case v.Msg == "":
+			case v.Finding == finding:
+				got = append(got, firstLine(v.Msg)+" [q = "+c.Q+"]")
+			default:
+				got = append(got, "DIFFERENT FAILURE (recognised as \""+v.Finding+"\"): "+firstLine(v.Msg)+" [q = "+c.Q+"]")
+			}
+		}
+		return strings.Join(got, " || ")
+	}}
+}
+
+func firstLine(s string) string {
+	if i := strings.IndexByte(s, '\n'); i >= 0 {
+		s = s[:i]
+	}
+	return clip(s)
+}
+
+func probes() pbt.Probes {
+	return pbt.Probes{
+		findAliasDrop: probeOps(findAliasDrop,
+			opCase{Rig: "plain", Q: `{ categories { topSubcategory { name } } }`, Q2: `{ categories { topSubcategory { name x: name } } }`, Kind: "aliasdup"},
+			opCase{Rig: "plain", Q: `{ categories { topSubcategory { description } } }`, Q2: `{ categories { topSubcategory { description x: description } } }`, Kind: "aliasdup"},
+			opCase{Rig: "plain", Q: `{ categories { mascot(includeVolume: true) { __typename } } }`, Q2: `{ categories { mascot(includeVolume: true) { x: __typename } } }`, Kind: "alias"},
+			opCase{Rig: "fed", Q: `{ storage(id: "1") { processedMetadata { zone } } }`, Q2: `{ storage(id: "1") { processedMetadata { zone x: zone } } }`, Kind: "aliasdup"},
+		),
+		findEnumList:   probeSolo(findEnumList, unitCase{Rig: "plain", Q: `{ categoriesByKinds(kinds: [BOOK]) { id } }`}),
+		findNullParent: probeSolo(findNullParent, unitCase{Rig: "plain", Q: `{ categories { topSubcategory { parentCategory { name } } } }`}),
+		findTypenameKeys: probeSolo(findTypenameKeys,
+			unitCase{Rig: "plain", Q: `{ search(input: {query: "t", limit: 2}) { x: __typename __typename ... on Product { id } } }`}),
+		findNestedListParent: probeSolo(findNestedListParent, unitCase{Rig: "plain", Q: `{ blogPost { categoryGroups { id productCount } } }`}),
+		findResolverInUnion: probeSolo(findResolverInUnion,
+			unitCase{Rig: "plain", Q: `{ search(input: {query: "t", limit: 1}) { ... on Category { subcategories { itemCount } } } }`},
+			unitCase{Rig: "plain", Unit: "Category.totalProducts", Q: `{ search(input: {query: "t", limit: 3}) { ... on Category { totalProducts } } }`}),
+	}
+}
